@@ -80,7 +80,9 @@ func main() {
 	_ = engFile
 
 	kbFile := filepath.Join(*repo, "ast", "KnowledgeBase.go")
-	if n, src := instrumentFile(kbFile, false, false, "ast"); n > 0 && !*points {
+	// all forms here too: the name walks of RetractRule / IsRuleRetracted / Reset see the entries in sorted key order
+	// (tombstones "Deleted_<name>" first), not in the runtime's random one
+	if n, src := instrumentFile(kbFile, true, false, "ast"); n > 0 && !*points {
 		dst := filepath.Join(*out, "src", "ast_KnowledgeBase.go")
 		must(os.WriteFile(dst, src, 0o644))
 		replace[kbFile] = dst
